@@ -31,7 +31,7 @@ FLOORS = {"quick": {"groups": 800, "dispatcher_runs_in_histories": 800, "flag:re
 ACTS = ["Idle"] * 8 + ["Repositioning"] * 5 + ["ReserveBase", "ReserveBase", "ChargingBase", "DispatchBase", "DispatchStation", "ChargingStation",
         "ChargeQueueing", "DispatchTrip", "ServicingTrip", "OutOfService"]
 PROFILE = profile(nv=(0, 7), humans_share=True, n_requests=(0, 0), nets=["hav"], socs=[0.001, 0.05, 0.12, 0.3, 0.31, 0.6, 0.9, 0.9, 1.0], builtin=[False], n_scripted=[1],
-                  mechs=["leaf_50", "leaf_50", "tiny_bev", "toyota_corolla", "tiny_ice"], fleets=[0, 0, 2, 3], stations=(1, 2), bases=(1, 2))
+                  mechs=["leaf_50", "leaf_50", "tiny_bev", "toyota_corolla", "tiny_ice"], fleets=[0, 0, 1, 2, 3], stations=(1, 2), bases=(1, 2))
 
 
 @st.composite
@@ -252,7 +252,7 @@ from hv import hprop  # noqa: E402
 
 HIST = hprop.HistoryProperty(
     prop=PROP, monitors=lambda: [C12History()],
-    profile=profile(nv=(2, 8), n_requests=(10, 40), builtin=[True], fleets=[0, 0, 2, 3], socs=[0.05, 0.12, 0.3, 0.31, 0.6, 0.9, 1.0], timeouts=[300, 600]),
+    profile=profile(nv=(2, 8), n_requests=(10, 40), builtin=[True], fleets=[0, 0, 1, 2, 3], socs=[0.05, 0.12, 0.3, 0.31, 0.6, 0.9, 1.0], timeouts=[300, 600]),
     nontrivial=lambda f: "history_pairing" in f, rule="", assumptions=[], quick=(4, 60, 40), thorough=(4, 800, 60),
 )
 
